@@ -4,10 +4,10 @@
 package h
 
 import (
-	"math/big"
 	"encoding/json"
 	"fmt"
 	"math"
+	"math/big"
 	"reflect"
 	"sort"
 	"strings"
